@@ -96,6 +96,17 @@ CLAIMED["C04"] = dict(
     technique="TLC spec equality Instantiate o Load = Load o Subst on the listener-machine model + both sides replayed into the real code",
     design="7/C04")
 
+CLAIMED["C01"] = dict(
+    text="BBSerialize specifies what serialisation must produce (metadata options, hoisted array declarations, tdm block, one statement per operation, "
+         "braces around parameters). On the builder model TLC checks for every loaded program RoundTrip (Load(Serialize(p)) has the same metadata, "
+         "parameters and operations), Stationary (the serialisation of the reloaded program is the same script, which closes the induction over "
+         "generations) and SecondGeneration. The harness runs the real dumps/loads chain for 4 (thorough 8) generations on every script and compares "
+         "each generation with the specification's program (keyword order included) and exactly with the first program's numbers/strings/lists/arrays.",
+    note="Trusted: TLC, renderer. Out of scope: parameters occurring in no operation, array arguments that still contain parameters (variables are not "
+         "serialised); empty list keywords are dropped by the loader (pinned by the repository's tests).",
+    technique="TLC round-trip and stationarity on the Load/Serialize specification + real dumps/loads generations compared with the spec",
+    design="7/C01")
+
 NOT_YET = {}
 
 
